@@ -43,4 +43,28 @@ mod verif_c08_best_case_wit {
             assert!(e_best <= e_real + 1e-9, "battery in {:?}: the best case ({} kWh) exceeds the real consumption ({} kWh)", battery_unit, e_best, e_real);
         }
     }
+
+    /// C08: "a battery vehicle's state of charge starts at the query's starting value ... and a starting charge outside 0-100 is rejected"
+    #[test]
+    fn c08_wit_state_of_charge_starts_at_the_querys_value() {
+        use crate::routee::vehicle::default::phev::PHEV;
+        let bev = BEV::new(String::from("bev"), record(), Energy::new(60.0), Energy::new(60.0), EnergyUnit::KilowattHours);
+        let phev = PHEV::new(String::from("phev"), record(), record(), Energy::new(12.0), Energy::new(12.0), EnergyUnit::KilowattHours, None).unwrap();
+        let vehicles: Vec<(&str, &dyn VehicleType)> = vec![("bev", &bev), ("phev", &phev)];
+        for (name, v) in vehicles {
+            for soc in [0.0, 12.5, 50.0, 99.9, 100.0] {
+                let q = serde_json::json!({"starting_soc_percent": soc});
+                let updated = v.update_from_query(&q).unwrap_or_else(|e| panic!("{}: a starting charge of {} % is legal: {:?}", name, soc, e));
+                let sm = StateModel::empty().extend(updated.state_features()).unwrap();
+                let state = sm.initial_state().unwrap();
+                let names: Vec<String> = sm.indexed_iter().map(|(_, (n, _))| n.clone()).collect();
+                let i = names.iter().position(|n| n == "battery_state").expect("a battery vehicle has a state-of-charge feature");
+                assert!((state[i].0 - soc).abs() < 1e-9, "{}: the search must start at the query's state of charge {} %, it starts at {}", name, soc, state[i].0);
+            }
+            for bad in [serde_json::json!(-0.1), serde_json::json!(100.1), serde_json::json!(1e9), serde_json::json!("50"), serde_json::json!(null)] {
+                let q = serde_json::json!({"starting_soc_percent": bad.clone()});
+                assert!(v.update_from_query(&q).is_err(), "{}: a starting charge of {} must be rejected", name, bad);
+            }
+        }
+    }
 }
